@@ -184,3 +184,82 @@ Example quoted_ex :
     [lit [43; 49]; lit [46; 53]; lit [45; 46; 105; 110; 102]; lit [97; 32]; lit [110; 117; 108; 108]; lit [45; 45; 45; 32; 97];
      lit [126]; lit [97; 58; 32; 98]; lit [97; 32; 35; 98]; lit [48; 120; 49]; lit []; lit [45; 32; 97]; lit [91; 97]].
 Proof. vm_compute. repeat constructor. Qed.
+
+(** ** integers of any size: written in decimal, read back as the same integer *)
+From JaqV Require Import Proofs.DigitLaws.
+
+Lemma radix10_digits ds : forall a, all_digits ds = true -> radix_val 10 a ds = Some (digits_val_acc a ds).
+Proof.
+  induction ds as [|d ds IH]; intros a H; [reflexivity|]. cbn [all_digits forallb] in H. apply andb_prop in H as [Hd Hr].
+  cbn [radix_val digits_val_acc]. unfold digit_of. unfold is_digit in Hd. rewrite Hd.
+  apply andb_prop in Hd as [A B]. apply Z.leb_le in A, B.
+  destruct (Z.ltb_spec (bz d - 48) 10); [|lia]. unfold digit_val. apply IH. exact Hr.
+Qed.
+
+(** a string that starts with a digit or a minus sign is none of the keywords *)
+Lemma not_keyword c r : (is_digit c = true \/ bz c = 45) ->
+  in_lits (c :: r) kws = false /\ bytes_eqb (c :: r) (lit [126]) = false.
+Proof.
+  intros H. assert (K : mem_z (bz c) [110; 78; 111; 79; 121; 89; 116; 84; 102; 70; 46; 126] = false).
+  { unfold mem_z. cbn [existsb]. unfold is_digit in H.
+    repeat match goal with |- context [bz c =? ?k] => destruct (Z.eqb_spec (bz c) k) end; try reflexivity;
+      exfalso; destruct H as [H|H]; try lia; apply andb_prop in H as [A B]; apply Z.leb_le in A, B; lia. }
+  revert K. clear H. destruct c; vm_compute; intros K; try discriminate K; split; reflexivity.
+Qed.
+
+Lemma to_yaml_int z : to_yaml (Num (int_or_big z)) = Z_to_dec z.
+Proof. unfold int_or_big. destruct (in_isize z); reflexivity. Qed.
+
+Lemma resolve_digits_nonneg z : 0 <= z -> resolve (nat_digits z) = Num (int_or_big z).
+Proof.
+  intros Hz. destruct (nat_digits_spec z Hz) as (Hne & Hd & Hv & Hh).
+  destruct (nat_digits z) as [|d ds] eqn:E; [congruence|].
+  pose proof Hd as Hd'. cbn [all_digits forallb] in Hd'. apply andb_prop in Hd' as [Hd1 Hd2].
+  destruct (not_keyword d ds (or_introl Hd1)) as [K T]. apply kws_split in K as (Knull & Ktrue & Kfalse & Kinf & Knan).
+  unfold resolve. rewrite Knull, T, Ktrue, Kfalse, Knan. cbn [orb].
+  assert (PS : parse_sign (d :: ds) = (None, d :: ds)).
+  { unfold parse_sign, mem_z. cbn [existsb]. unfold is_digit in Hd1. apply andb_prop in Hd1 as [A B]. apply Z.leb_le in A, B.
+    destruct (Z.eqb_spec (bz d) 43); [lia|]. destruct (Z.eqb_spec (bz d) 45); [lia|]. reflexivity. }
+  unfold parse_int. rewrite PS.
+  assert (RV : forall radix s', s' = d :: ds -> radix = 10 -> from_str_radix s' radix = Some (int_or_big z)).
+  { intros radix s' -> ->. unfold from_str_radix. unfold is_digit in Hd1. apply andb_prop in Hd1 as [A B]. apply Z.leb_le in A, B.
+    destruct (Z.eqb_spec (bz d) 45); [lia|]. destruct (Z.eqb_spec (bz d) 43); [lia|].
+    rewrite (radix10_digits (d :: ds) 0 Hd). unfold digits_val in Hv. rewrite Hv. reflexivity. }
+  destruct (Z.eq_dec z 0) as [->|Nz].
+  - (* "0" *) assert (d :: ds = [zb 48]) as Ez by (rewrite <- E; reflexivity). injection Ez as -> ->. reflexivity.
+  - specialize (Hh ltac:(lia)). cbn [parse_radix].
+    destruct (Z.eqb_spec (bz d) 48); [lia|].
+    assert (((49 <=? bz d) && (bz d <=? 57)) = true) as -> by (apply andb_true_intro; split; apply Z.leb_le; lia).
+    rewrite (RV 10 (d :: ds) eq_refl eq_refl). reflexivity.
+Qed.
+
+(** non-negative integers of any size, and negative ones: the same integer is read back
+    (the most negative machine integer comes back as the equal big integer) *)
+Theorem yaml_integer_roundtrip z :
+  resolve (to_yaml (Num (int_or_big z))) = Num (if 0 <=? z then int_or_big z else Num.neg (int_or_big (- z))).
+Proof.
+  rewrite to_yaml_int. unfold Z_to_dec. destruct (Z.ltb_spec z 0) as [Hn|Hp].
+  - destruct (Z.leb_spec 0 z); [lia|].
+    pose proof (resolve_digits_nonneg (- z) ltac:(lia)) as R.
+    destruct (nat_digits_spec (- z) ltac:(lia)) as (Hne & Hd & Hv & Hh). specialize (Hh ltac:(lia)).
+    destruct (nat_digits (- z)) as [|d ds] eqn:E; [congruence|].
+    destruct (not_keyword x2d (d :: ds) (or_intror eq_refl)) as [K T]. apply kws_split in K as (Knull & Ktrue & Kfalse & Kinf & Knan).
+    unfold resolve. rewrite Knull, T, Ktrue, Kfalse, Knan. cbn [orb].
+    (* the digits alone resolve to the integer: reuse their parse *)
+    unfold resolve in R.
+    pose proof Hd as Hd'. cbn [all_digits forallb] in Hd'. apply andb_prop in Hd' as [Hd1 Hd2].
+    destruct (not_keyword d ds (or_introl Hd1)) as [K2 T2]. apply kws_split in K2 as (K2null & K2true & K2false & K2inf & K2nan).
+    rewrite K2null, T2, K2true, K2false, K2nan in R. cbn [orb] in R.
+    unfold parse_int in *. change (parse_sign (x2d :: d :: ds)) with (Some x2d, d :: ds). cbv beta iota.
+    assert (PS : parse_sign (d :: ds) = (None, d :: ds)).
+    { unfold parse_sign, mem_z. cbn [existsb]. unfold is_digit in Hd1. apply andb_prop in Hd1 as [A B]. apply Z.leb_le in A, B.
+      destruct (Z.eqb_spec (bz d) 43); [lia|]. destruct (Z.eqb_spec (bz d) 45); [lia|]. reflexivity. }
+    rewrite PS in R. cbv beta iota in R. destruct (parse_radix (d :: ds)) as [[radix s']|].
+    + destruct (from_str_radix s' radix) as [n|].
+      * cbn [is_minus] in *. change (bz x2d =? 45) with true. injection R as R. rewrite R. reflexivity.
+      * exfalso. revert R. unfold parse_float. rewrite PS. cbv beta iota. rewrite K2inf.
+        destruct (normalise_float None (d :: ds)); unfold int_or_big; destruct (in_isize (- z)); discriminate.
+    + exfalso. revert R. unfold parse_float. rewrite PS. cbv beta iota. rewrite K2inf.
+      destruct (normalise_float None (d :: ds)); unfold int_or_big; destruct (in_isize (- z)); discriminate.
+  - destruct (Z.leb_spec 0 z); [|lia]. apply resolve_digits_nonneg. exact Hp.
+Qed.
